@@ -572,6 +572,27 @@ bytes_sign_one(tc_t *t, int algo, int le, uint32_t d, uint32_t k, const uint8_t 
 		    rv, sv, algo_name[algo], e);
 		bad = 1;
 	}
+	/* the same private key handed over in fewer bytes than the field has (d = 1 as one byte): when signing succeeds it is a
+	 * signature by d, i.e. the one just verified; the key sits in a heap block of exactly that size */
+	if (!bad && b > 1 && (uint64_t)d <= maxval(b - 1)) {
+		size_t sl = 1, ssz2 = 777; call_t c2; int rc2;
+		while ((uint64_t)d > maxval(sl)) sl ++;
+		memset(&c2, 0, sizeof(c2));
+		c2.op = OP_SIGN_B; c2.le = le; c2.curve = t->curve;
+		c2.bh = (uint8_t *)vh_dup(hash, hlen); c2.hlen = hlen;
+		c2.bd = (uint8_t *)malloc(sl); tc_put(c2.bd, sl, d, le); c2.dlen = sl;
+		c2.bk = (uint8_t *)malloc(b); tc_put(c2.bk, b, k, le); c2.klen = b;
+		c2.br = (uint8_t *)malloc(b); c2.bs = (uint8_t *)malloc(b);
+		memset(c2.br, 0xA5, b); memset(c2.bs, 0xA5, b);
+		c2.ssz = &ssz2;
+		rc2 = call_lib(&c2);
+		if (0 == rc2 && (ssz2 != b || tc_get(c2.br, b, le) != rv || tc_get(c2.bs, b, le) != sv)) {
+			vh_fail("short-key-encoding-signs-differently", "priv_key_size=%zu: (r,s)=(%" PRIu64 ",%" PRIu64 "), with the key in %zu bytes (%" PRIu64 ",%" PRIu64 ")",
+			    sl, tc_get(c2.br, b, le), tc_get(c2.bs, b, le), b, rv, sv);
+			bad = 1;
+		}
+		free(c2.bh); free(c2.bd); free(c2.bk); free(c2.br); free(c2.bs);
+	}
 	if (!bad)
 		vh_nontrivial();
 out:
